@@ -293,7 +293,8 @@ def campaign(run: common.Run) -> None:
                               "styles": st.lists(st.integers(0, 1), min_size=1, max_size=4)}, 2500 if q else 12000, seed_salt=1)
     offs = st.one_of(st.just(0), st.integers(-840, 840), st.sampled_from([330, -300, 60]))
     common.drive(run, body_enc, {"t": values.timestamp_us(whole_seconds=True), "off": offs, "d": values.duration_us(whole_seconds=True),
-                                  "b": values.binary(9)}, 400 if q else 6000, seed_salt=2)
+                                  "b": values.binary(9) | st.binary(min_size=40, max_size=200) | st.sampled_from([56, 57, 58, 59, 76, 114, 115, 255, 256, 1000]).flatmap(lambda n: st.binary(min_size=n, max_size=n))},
+                 400 if q else 6000, seed_salt=2)
 
 
 def main(run: common.Run) -> None:
